@@ -27,11 +27,16 @@ func retainedOutputs(e error) string {
 	return b.String()
 }
 
+// c12Alphabet: regular text plus strings whose token lies between a pair
+// of redaction-marker runes (a constant message may contain them; it is
+// declared safe as a whole).
+var c12Alphabet = append(append([]string{}, tm.REG...), "‹x›", "a ‹b› c")
+
 func runC12(c *core.Ctx, r *core.Result) {
-	p := plan{fullDepth: 3, coreDepth: 4, strDepth: 2, alphabet: tm.REG, aliasSides: true}
+	p := plan{fullDepth: 3, coreDepth: 4, strDepth: 2, alphabet: c12Alphabet, aliasSides: true}
 	hops := 2
 	if c.Thorough() {
-		p = plan{fullDepth: 4, coreDepth: 5, strDepth: 2, alphabet: tm.REG, aliasSides: true}
+		p = plan{fullDepth: 4, coreDepth: 5, strDepth: 2, alphabet: c12Alphabet, aliasSides: true}
 		hops = 3
 	}
 	r.Bounds = fmt.Sprintf("%s; stages local and after hops 1..%d between knowing processes", p, hops)
@@ -63,14 +68,17 @@ func runC12(c *core.Ctx, r *core.Result) {
 					if k > 0 {
 						e, _ = tm.HopK(e)
 					}
-					out := retainedOutputs(e)
+					// (redact escapes marker runes inside safe strings to "?": the
+					// comparison is modulo that escaping)
+					unmark := strings.NewReplacer("‹", "?", "›", "?")
+					out := unmark.Replace(retainedOutputs(e))
 					for _, si := range toks {
 						for _, line := range strings.Split(si.Value, "\n") {
 							want := line
 							if si.Fmt || si.Name == "domain" { // printf format, or rendered with %q by NamedDomain
 								want = si.Token // the slot is a printf format: its text is not verbatim
 							}
-							if strings.Contains(line, si.Token) && !strings.Contains(out, want) {
+							if strings.Contains(line, si.Token) && !strings.Contains(out, unmark.Replace(want)) {
 								return fail(fmt.Sprintf("lost:hop%d", min(k, 2)), "safe string %q (slot %s.%s): its line %q is absent from the Sentry report and from GetAllSafeDetails after %d hop(s) (the same object was reported before each hop)", si.Value, si.Op, si.Name, line, k)
 							}
 						}
